@@ -3,7 +3,8 @@ PROP = {
  "specs": [
   "specs.trees",
   "specs.unionfind",
-  "specs.kruskal"
+  "specs.kruskal",
+  "specs.bfs_tables"
  ],
  "functions": [
   "mouette.processing.trees.edge_sp.EdgeSpanningTree._avoid_edge",
@@ -12,17 +13,19 @@ PROP = {
   "mouette.utils.unionfind.UnionFind.find",
   "mouette.utils.unionfind.UnionFind.connected",
   "mouette.utils.unionfind.UnionFind.union",
-  "mouette.processing.trees.edge_sp.EdgeMinimalSpanningTree.compute#kruskal"
+  "mouette.processing.trees.edge_sp.EdgeMinimalSpanningTree.compute#kruskal",
+  "mouette.processing.trees.edge_sp.EdgeSpanningTree.compute#tables"
  ],
  "level": "other",
- "explanation": "Deductive part: (1) Kruskal's loop of EdgeMinimalSpanningTree.compute, as a region contract on the real statements, checked against the union-find contracts: for every mesh and every candidate list the tree edge list has exactly |V| - #classes entries (each accepted edge merged two different classes: the list is a forest), the end points of every candidate processed are joined (the forest spans every component of the admissible graph), and every tree edge is the sorted pair of end points of a candidate mesh edge; (2) the exclusion predicate of the vertex tree (an edge is skipped exactly when its id is in the exclusion set or it lies on the border when asked); (3) the union-find itself (connected <=> joined by unions, component count). Minimality of the total weight, the BFS trees, the parent/children orientation and traversal (closures over deques, generators) are not under contract; those clauses are decided only by the bounded native contract, which is not a proof.",
+ "explanation": "Deductive part: (1) Kruskal's loop of EdgeMinimalSpanningTree.compute, as a region contract on the real statements, checked against the union-find contracts: for every mesh and every candidate list the tree edge list has exactly |V| - #classes entries (each accepted edge merged two different classes: the list is a forest), the end points of every candidate processed are joined (the forest spans every component of the admissible graph), and every tree edge is the sorted pair of end points of a candidate mesh edge; (2) the last loop of the breadth-first tree (region contract): every vertex listed in children[p] was reached and has parent p, each once and in increasing order, and the tree edge list holds exactly one sorted pair (parent, vertex) per reached vertex with a parent, so no tree edge is missing or repeated; (3) the exclusion predicate of the vertex tree (an edge is skipped exactly when its id is in the exclusion set or it lies on the border when asked); (4) the union-find itself (connected <=> joined by unions, component count). Minimality of the total weight, the BFS trees, the parent/children orientation and traversal (closures over deques, generators) are not under contract; those clauses are decided only by the bounded native contract, which is not a proof.",
  "trusted_base": [
   "A1",
   "A3",
   "A5",
   "assumed C01 contracts: edge_id(a,b) and is_edge_on_border(a,b) are functions of the unordered vertex pair",
   "vertex indices are embedded into the abstract element sort of the union-find contracts by an injective function (the contracts are parametric in the element type)",
-  "Kruskal region: the statements before it establish its precondition (valid candidate edge indices, empty tree edge list, one neighbour set per vertex) - not verified; the statements after it (orientation by BFS) are outside the region"
+  "Kruskal region: the statements before it establish its precondition (valid candidate edge indices, empty tree edge list, one neighbour set per vertex) - not verified; the statements after it (orientation by BFS) are outside the region",
+  "BFS tables region: parent entries are valid vertex indices, tables sized |V|, children lists and edge list empty on entry (precondition established by __init__ and the search loop, not verified); prefix counts of contributing vertices are a logical parameter (monotone by induction, not mechanised)"
  ],
  "bounded": [
   {
